@@ -307,8 +307,8 @@ def r4_query_scope(P, rep, ctx):
     cfi = P.func(f"{MM}.__contains__")
     cn = F(ctx, cfi)
     sp = cfi.params[1]
-    rets = [(i, cn.x(v)) for i, v in cn.returns() if v is not None]
-    okc = bool(rets) and all(t in ("False", f"next(self.query({sp}), None) is not None", f"any(True for _ in self.query({sp}))") for i, t in rets) and any(t != "False" for i, t in rets)
+    rets = [(i, cn.x(v), cn.xe(v)) for i, v in cn.returns() if v is not None]
+    okc = bool(rets) and all(t == "False" or t == f"any(True for _ in self.query({sp}))" or M.equivalent(e_, f"next(self.query({sp}), None) is not None") for i, t, e_ in rets) and any(t != "False" for i, t, e_ in rets)
     rep.check(okc, "C07.R4", cfi.qual, "membership == query is non-empty", cfi.loc(), construct="__contains__", message="MetadorMeta.__contains__ is not `next(self.query(schema), None) is not None`")
     gfi = P.func(f"{MM}.get")
     gt = F(ctx, gfi)
